@@ -11,6 +11,7 @@
   declarations (all kinds, slices, maps, groups, commands) is exercised on every run by the
   harness: write, read into a fresh parser, compare every option.
 -/
+import GoFlags.Props.C12.Trans
 import GoFlags.Lemmas.OneLine
 import GoFlags.Props.C12.Facts
 import GoFlags.Ini
